@@ -33,6 +33,10 @@ const (
 	// ShapeNaNBar (outside the generally drawn shapes): a random walk with one bar whose prices are
 	// not-a-number (a quote that failed to parse upstream). Drawn by C04.
 	ShapeNaNBar = NumShapes + 2
+	// ShapeCloseOnly (outside the generally drawn shapes): a random walk in which one bar in seven
+	// carries a close and a volume but no open, high or low (zero): the "close only" rows at the
+	// start of many price histories. Drawn by C05 and C14.
+	ShapeCloseOnly = NumShapes + 3
 )
 
 var shapeNames = []string{"walk", "flat", "up", "down", "saw", "ties", "tiny", "huge", "spiky", "halts", "steps", "micro", "glitch"}
@@ -52,7 +56,7 @@ func genSnapshots(n int, shape int, seed int64, start time.Time) []*asset.Snapsh
 	}
 	for i := 0; i < n; i++ {
 		switch shape {
-		case ShapeWalk, ShapeTiny, ShapeHuge, ShapeHalts, ShapeGlitch, ShapeSteps, ShapeLateStart, ShapeNaNBar:
+		case ShapeWalk, ShapeTiny, ShapeHuge, ShapeHalts, ShapeGlitch, ShapeSteps, ShapeLateStart, ShapeNaNBar, ShapeCloseOnly:
 			price *= 1 + 0.04*(rng.Float64()-0.5)
 		case ShapeFlat:
 		case ShapeMicro:
@@ -115,6 +119,9 @@ func genSnapshots(n int, shape int, seed int64, start time.Time) []*asset.Snapsh
 		}
 		if shape == ShapeLateStart && i <= int(seed%3) {
 			c, o, h, l, vol = 0, 0, 0, 0, 0
+		}
+		if shape == ShapeCloseOnly && rng.Intn(7) == 0 {
+			o, h, l = 0, 0, 0
 		}
 		if shape == ShapeNaNBar && n > 0 && i == int(seed%int64(n)) {
 			c, o, h, l = math.NaN(), math.NaN(), math.NaN(), math.NaN()
